@@ -10,13 +10,12 @@ the set of rules changes, that theorem no longer checks and the framework search
 namespace LokiModel.C05
 
 def pinnedRules : List (String × String × String × Nat × String × String) := [
-  ("IBM_DIRECTIVES", "regex", "(@PROCESS.*\\n)", 32, "'\\n'", "None"),
+  ("IBM_DIRECTIVES", "regex", "(^\\s*@PROCESS.*\\n)", 32, "'\\n'", "None"),
   ("STRING_PP_DIRECTIVES", "regex", "(?P<pp>^\\s*#.*__(?:FILE|FILENAME|DATE|VERSION)__)|(?P<else>__(?:FILE|FILENAME|DATE|VERSION)__)", 32, "lambda m: m['pp'] or f'\"{m[\"else\"]}\"'", "None"),
-  ("INTEGER_PP_DIRECTIVES", "str", "__LINE__", 0, "0", "None"),
+  ("INTEGER_PP_DIRECTIVES", "regex", "(?P<pp>^\\s*#.*__LINE__)|(?P<else>__LINE__)", 32, "lambda m: m['pp'] or '0'", "None"),
   ("CONVERT_ENDIAN", "regex", "(?P<ws>^\\s*)(?P<pre>OPEN\\s*\\(.*?)(?P<convert>,?\\s*CONVERT=[\\'\\\"](?:BIG|LITTLE)_ENDIAN[\\'\\\"]\\s*)(?P<post>.*?$)", 34, "r'\\g<ws>\\g<pre>\\g<post>'", "reinsert_convert_endian"),
   ("OPEN_NEWUNIT", "regex", "(?P<ws>^\\s*)(?P<open>OPEN\\s*\\()(?P<args1>.*?)(?P<delim>,)?(?P<newunit_key>,?\\s*NEWUNIT=)(?P<newunit_val>.*?(?=,|\\)|&))(?P<args2>.*?$)", 34, "lambda m: f'{m[\"ws\"]}{m[\"open\"]}{m[\"newunit_val\"]}{m[\"delim\"] or \"\"}' + f'{m[\"args1\"]}{m[\"args2\"]}'", "reinsert_open_newunit"),
-  ("FYPP ANNOTATIONS", "regex", "(# [1-9].*\\\".*\\.(?:fypp|hypp)\\\"(?:\\s+\\d+)?\\n)", 32, "''", "None")
+  ("FYPP ANNOTATIONS", "regex", "(^\\s*# [1-9].*\\\".*\\.(?:fypp|hypp)\\\"(?:\\s+\\d+)?\\n)", 32, "''", "None")
 ]
-
 
 end LokiModel.C05
